@@ -354,7 +354,7 @@ def parse_units(ctx, src):
     if len(arms) != 7:
         raise ExtractionBreak('JSON::parse: %d dispatch arms, the table covers 7 ({ [ number string null true false)' % len(arms))
     u = Unit(ctx, 'json_parse')
-    u.raw('#include "stubs/C04_json.h"\n#define C04_CATCHES(x, T) ((x) == (T))   /* handler for out_of_range: the model has no class derived from it */\n')
+    u.raw('#include <float.h>\n#include <limits.h>\n#include "stubs/C04_json.h"\n#define C04_CATCHES(x, T) ((x) == (T))   /* handler for out_of_range: the model has no class derived from it */\n')
     u.function(src, SCC, r'uint8_t value_for_hex_char\(char x\)', ret_zero='0')
     u.raw('/* value_for_hex_char(r.get_s8()): the argument is evaluated first; when it throws the function is not called */\n'
           'static inline uint8_t C04_hex_of_next(StringReader* r)\n{ char c = StringReader_get_s8(r, true); if (verif_exc) return 0; return value_for_hex_char(c); }')
@@ -726,6 +726,16 @@ def plan(ctx):
                             replay=RP('compare')))
     groups.append(Group(name='JSON.compare.lemma[scalar equal to its copy]', harness=HCMP, entry='l_eq_reflexive', function='JSON::operator== (contract)',
                         replace=['JSON_eq'], kind='lemma', min_post=1, engines=['minisat', 'cadical'], replay=RP('compare')))
+    # the number branch of the parser under its C05 contract (lock-step RFC 8259 number automaton: extent, int / float kind, integer value,
+    # int64 range, and the value of the decimal EXPONENT up to 400): the float clauses of C04 ("same kind", "value to six digits") rest on it
+    # as far as they are decidable here -- the mantissa / scaling arithmetic itself is floating point (NOT_DECIDED)
+    from props import C05 as c05
+    saved_fuc = list(ctx.functions_under_contract)
+    for g5 in c05.plan(ctx):
+        if g5.name == 'JSON.parse.number':
+            g5.name = 'JSON.parse.number[C05 contract]'
+            groups.append(g5)
+    ctx.functions_under_contract = saved_fuc + [f for f in ctx.functions_under_contract if 'JSON_parse_number' in f.get('c_header', '')]
     HC = 'harness/C04/containers.c'
     AB = D + ['C04_EMIT_ABSTRACT=1']
     groups.append(Group(name='JSON.serialize.list', clause_note='contracts/C04_container.h: the emitted tokens are accepted by the RFC 8259 array automaton, one value per element, children with the parent options, list order',
